@@ -223,6 +223,82 @@ func checkC10(e *Engine, r *Report) {
 				r.Check("R2:gate-refuses@"+name, "R1+R2 permission gate", "when "+name+" reports an error NewCache fails", e.InstrPos(g), newCache, p2 == nil, e.pathString(p2), true)
 			}
 			r.MinInstances("permission gates before Load", len(gates), 3)
+			// the paths examined are clean: os.Lstat resolves a symbolic link when the name ends in a slash, so a path
+			// taken verbatim from the configuration ("…/link/") would make the symlink refusal ineffective
+			var isClean func(v ssa.Value, fn *ssa.Function, d int) bool
+			isClean = func(v ssa.Value, fn *ssa.Function, d int) bool {
+				if d > 4 {
+					return false
+				}
+				if c, ok := v.(*ssa.Call); ok {
+					if f := c.Common().StaticCallee(); f != nil && (f.String() == "path/filepath.Join" || f.String() == "path/filepath.Clean") {
+						return true
+					}
+				}
+				if k, ok := v.(*ssa.Const); ok {
+					if sv, isS := constString(k); isS {
+						return !strings.HasSuffix(sv, "/")
+					}
+				}
+				if c, ok := v.(*ssa.Call); ok {
+					// a repository helper all of whose results are clean
+					if f := c.Common().StaticCallee(); f != nil && f.Pkg != nil && isRepoPath(f.Pkg.Pkg.Path()) && len(f.Blocks) > 0 && f.Signature.Results().Len() == 1 {
+						for _, ret := range Returns(f) {
+							if !isClean(ret.Results[0], f, d+1) {
+								return false
+							}
+						}
+						return true
+					}
+				}
+				if f, _ := loadedField(v); f != nil {
+					// a field all of whose stores (anywhere in the package) are clean paths
+					okAll, n := true, 0
+					for _, g := range e.funcsInPkg(pkgCA) {
+						AllInstrsOf(g, func(in ssa.Instruction) {
+							if st, ok := in.(*ssa.Store); ok && fieldOfAddr(st.Addr) == f {
+								n++
+								if !isClean(st.Val, g, d+1) {
+									okAll = false
+								}
+							}
+						})
+					}
+					return okAll && n > 0
+				}
+				if u, ok := v.(*ssa.UnOp); ok && u.Op == token.MUL {
+					if al, ok := u.X.(*ssa.Alloc); ok {
+						sts := reachingStores(al, u)
+						if len(sts) == 0 {
+							return false
+						}
+						for _, st := range sts {
+							if !isClean(st.Val, fn, d+1) {
+								return false
+							}
+						}
+						return true
+					}
+				}
+				return false
+			}
+			for _, target := range []*ssa.Function{checkPerm, mkdirAll} {
+				for _, cs := range e.Callers(target) {
+					a := callArgs(cs.Call)
+					if len(a) < 3 {
+						continue
+					}
+					okP, why := isClean(a[2], cs.Fn, 0), "the path is not the result of filepath.Join/Clean"
+					// mkdirAll forwarding its own parameter is covered at mkdirAll's call sites
+					if !okP && cs.Fn == mkdirAll && paramIndex(a[2]) == 2 {
+						okP = true
+					}
+					if okP {
+						why = ""
+					}
+					r.Check("R2:checked-path-is-clean@"+FnName(cs.Fn)+"->"+target.Name(), "R1+R2 permission gate", "a path checked for being a symbolic link has no trailing separator (it comes from filepath.Join/Clean), so Lstat examines the link itself", e.InstrPos(cs.Call), cs.Fn, okP, why, true)
+				}
+			}
 			// the file check is on filePath, as a regular file
 			okFile := false
 			for _, c := range e.callsTo(newCache, checkPerm) {
